@@ -74,10 +74,18 @@ def r12_1(run):
             if fi.qualname not in {m.qualname for _, m, _ in roots}:
                 roots.append((None, fi, set()))
     for cls, m, tps in roots:
+        generic = m.qualname == OP_BACKWARD
+        if generic:
+            # the generic loop receives whatever some backward_var returns: judge its writes against the worst case (the incoming grad itself,
+            # a view of it, a view of an operand's data, or a fresh array)
+            I.dynamic_backward_var = _worst_case_backed_grad()
         try:
             s = I.analyse(m, tensor_params=tps)
         except RecursionError:
             raise AnalysisError(f"abstract interpreter recursion in {m.short}")
+        finally:
+            if generic:
+                I.dynamic_backward_var = None
         n_funcs += 1
         for u in s.unknown_calls:
             run.unresolved_item(u)
